@@ -12,7 +12,7 @@ class Node:
         self.kind, self.lean, self.py, self.kids = kind, lean, py, list(kids)
         self.__dict__.update(extra)
     def features(self):
-        s = {self.kind}
+        s = {self.kind} | set(getattr(self, "tags", ()))
         for k in self.kids: s |= k.features()
         return s
     def size(self): return 1 + sum(k.size() for k in self.kids)
@@ -28,7 +28,7 @@ class Node:
 class Pool:
     """accumulates the Python source of the generated classes"""
     HEADER = ["from dataclasses import dataclass, field", "from typing import *", "from enum import Enum",
-              "from apischema import alias, schema", "from apischema.metadata import fall_back_on_default", "NoneType = type(None)", ""]
+              "from apischema import alias, schema, dependent_required", "from apischema.metadata import fall_back_on_default", "NoneType = type(None)", ""]
     def __init__(self): self.src = list(self.HEADER); self.n = 0
     def fresh(self, p): self.n += 1; return f"{p}{self.n}"
     def add(self, lines): self.src += lines + [""]
@@ -213,6 +213,29 @@ class Gen:
         if not fs: lines.append("    pass")
         self.pool.add(lines)
         return self._obj_node("dataclass", n, fs, decl=lines)
+    def g_depreq(self, d):
+        """dataclass with `dependent_required`: not in the Lean model (tag `depreq`: K and model-based P are skipped,
+        the model-free checks - jsonschema oracle, typed locations, relational checks - still run)"""
+        n = self.pool.fresh("C")
+        names = self.rnd.sample(NAMES, self.rnd.randint(2, 3))
+        fs = []
+        for nm in names:
+            t = self.rnd.choice([self.g_int, self.g_str, self.g_bool])(0)
+            t = Node("optional", ["union", [t.lean, ["none"]]], f"Optional[{t.py}]", [t])
+            f = dict(name=nm, alias=nm, required=False, fbod=False, ty=t, dflt=["n"], dflt_src="None")
+            if self.rnd.random() < 0.4: f["alias"] = nm.upper() + "_al"
+            fs.append(f)
+        a, b = names[0], names[1]
+        lines = ["@dataclass", f"class {n}:"]
+        for f in fs:
+            md = f"metadata=alias({f['alias']!r})" if f["alias"] != f["name"] else ""
+            lines.append(f"    {f['name']}: {f['ty'].py} = field(default=None" + (f", {md})" if md else ")"))
+        deps = "{" + f"{a}: [{b}]" + (f", {names[2]}: [{a}]" if len(names) > 2 and self.rnd.random() < 0.5 else "") + "}"
+        lines.append(f"    dependencies = dependent_required({deps})")
+        self.pool.add(lines)
+        node = self._obj_node("dataclass", n, fs, decl=lines)
+        node.tags = ("depreq",)
+        return node
     def g_namedtuple(self, d):
         n = self.pool.fresh("N"); fs = self._fields(d, "namedtuple")
         lines = [f"class {n}(NamedTuple):"] + [f"    {f['name']}: {f['ty'].py}" + ("" if f["required"] else f" = {f['dflt_src']}") for f in fs]
@@ -241,7 +264,10 @@ class Gen:
         if k in ("str", "cstr"): return r.choice(STR_ATOMS)
         if k == "any": return r.choice(self.ATOMS)
         if k in ("literal", "enum"): return r.choice(t.vals)
-        if k in ("list", "set", "frozenset", "vtuple"): return [self.valid(t.kids[0], depth + 1) for _ in range(r.randint(0, 3))]
+        if k in ("list", "set", "frozenset", "vtuple"):
+            # now and then a long array: child errors are keyed by index, and 10 sorts before 2 as a string
+            n = r.randint(11, 13) if (depth == 0 and r.random() < 0.08) else r.randint(0, 3)
+            return [self.valid(t.kids[0], depth + 1) for _ in range(n)]
         if k == "clist": return [self.valid(t.kids[0], depth + 1) for _ in range(r.randint(0, 3))]
         if k == "tuple": return [self.valid(x, depth + 1) for x in t.kids]
         if k in ("mapping",):
